@@ -10,13 +10,18 @@
    tree ([rose]); the model assumes such a call prints exactly that one tree at that depth.  What
    the code branches on is kept: presence of each optional clause, lengths of lists, flags.
 
-   Transcribed functions (select.go line numbers of the /repo revision this was written against):
-     countSelectQueryChildren                     829-891   [count_select_query_children]
-     explainSelectQuery                           393-560   [explain_select_query]
+   Transcribed functions (select.go line numbers of /repo revision a9fde9fa2):
+     countSelectQueryChildren                     850-912   [count_select_query_children]
+     explainSelectQuery                           412-579   [explain_select_query]
      explainSelectQueryWithInheritedWith           65-205   [explain_select_query_with_inherited_with]
-     countSelectUnionChildrenFormat               642-674   [count_select_union_children_format]
-     explainSelectWithUnionQueryFormat            323-391   [explain_select_with_union_query_format]
-     explainSelectWithUnionQueryWithInheritedWith 224-274   [explain_select_with_union_query_with_inherited_with]
+     unionTail and its methods format / unionSettings / selectSettings
+                                                  293-321   [union_tail, tail_format, tail_union_settings, tail_select_settings]
+     countSelectUnionChildrenTail                 661-699   [count_select_union_children_tail]
+     explainSelectWithUnionQueryTail              339-382   [explain_select_with_union_query_tail]
+     explainUnionTail                             385-411   [explain_union_tail]
+     explainSelectWithUnionQueryWithInheritedWith 230-262   [explain_select_with_union_query_with_inherited_with]
+     the tails passed by explainInsertQuery / explainExplainQuery / explainAsSelectWithoutFormat
+       (statements.go 88-99, 943-968; select.go 329-335)    [explain_insert_select, explain_query_tail, explain_as_select_without_format]
      explainSelectIntersectExceptQuery             10-47    [explain_select_intersect_except_query]
      extractWithClause                             50-61    [extract_with_clause]
      TablesWithArrayJoin (explain.go 370-394)               [tables_with_array_join]
@@ -305,38 +310,94 @@ Fixpoint first_select (P : select_query -> bool) (l : list sel_item) : option se
   | ItemOther _ :: r => first_select P r
   end.
 
-Definition legacy_settings (q : select_query) : bool :=
-  sq_settings_after_format q && pos (sq_settings q).
+(* ---- unionTail: which trailing clauses are output by the enclosing node ----
+   noFormatOf / noSettingsOf are *ast.SelectQuery pointers that the methods compare with the
+   members of n.Selects; pointer identity is modelled by the position of the member in
+   n.Selects ([None]: nil, or a pointer that is no member).  Assumption: no pointer occurs twice
+   in n.Selects (true of parser output, where every node is allocated once). *)
+Record union_tail := mkTail {
+  t_no_format : bool;
+  t_no_format_of : option nat;
+  t_no_settings : bool;
+  t_no_settings_of : option nat
+}.
 
-(* countSelectUnionChildrenFormat *)
-Definition count_select_union_children_format (n : union_query) (with_format : bool) : nat :=
+Definition tail_none : union_tail := mkTail false None false None.          (* unionTail{} *)
+Definition tail_no_format : union_tail := mkTail true None false None.      (* unionTail{noFormat: true} *)
+
+(* sq == t.noXxxOf, for the member at position i *)
+Definition is_idx (o : option nat) (i : nat) : bool :=
+  match o with Some j => Nat.eqb i j | None => false end.
+
+(* func (t unionTail) format(sq) *)
+Definition tail_format (t : union_tail) (i : nat) (sq : select_query) : option rose :=
+  if t_no_format t || is_idx (t_no_format_of t) i then None else sq_format sq.
+
+(* func (t unionTail) unionSettings(n) *)
+Definition tail_union_settings (t : union_tail) (n : union_query) : nat :=
+  if t_no_settings t then O else u_settings n.
+
+(* func (t unionTail) selectSettings(sq) *)
+Definition tail_select_settings (t : union_tail) (i : nat) (sq : select_query) : nat :=
+  if is_idx (t_no_settings_of t) i then O else sq_settings sq.
+
+(* `for _, sel := range n.Selects { if sq, ok := ..; ok && P sq { count++; break } }` with the
+   position of sel: does some SelectQuery member satisfy P *)
+Fixpoint exists_select_i (P : nat -> select_query -> bool) (i : nat) (l : list sel_item) : bool :=
+  match l with
+  | [] => false
+  | ItemSelect q :: r => if P i q then true else exists_select_i P (S i) r
+  | ItemOther _ :: r => exists_select_i P (S i) r
+  end.
+
+(* the same loop when its body uses the member: the first SelectQuery member satisfying P *)
+Fixpoint first_select_i (P : nat -> select_query -> bool) (i : nat) (l : list sel_item)
+  : option (nat * select_query) :=
+  match l with
+  | [] => None
+  | ItemSelect q :: r => if P i q then Some (i, q) else first_select_i P (S i) r
+  | ItemOther _ :: r => first_select_i P (S i) r
+  end.
+
+Definition tail_has_format (t : union_tail) (i : nat) (q : select_query) : bool :=
+  is_some (tail_format t i q).
+
+Definition tail_legacy_settings (t : union_tail) (i : nat) (q : select_query) : bool :=
+  sq_settings_after_format q && pos (tail_select_settings t i q).
+
+(* countSelectUnionChildrenTail *)
+Definition count_select_union_children_tail (n : union_query) (t : union_tail) : nat :=
   (1
    + b2n (existsb (is_select_with (fun q => is_some (sq_into_outfile q))) (u_selects n))
-   + (if with_format
-      then b2n (existsb (is_select_with (fun q => is_some (sq_format q))) (u_selects n))
-      else 0)
-   + (if pos (u_settings n) && (u_settings_before_format n || u_settings_after_format n)
+   + b2n (exists_select_i (tail_has_format t) 0 (u_selects n))
+   + b2n (u_settings_before_format n && pos (tail_union_settings t n))
+   + (if u_settings_after_format n && pos (tail_union_settings t n)
       then 1
-      else b2n (existsb (is_select_with legacy_settings) (u_selects n))))%nat.
+      else b2n (exists_select_i (tail_legacy_settings t) 0 (u_selects n))))%nat.
 
-(* the part after the select list, shared (textually duplicated in Go) by the two union printers *)
-Definition emit_union_tail (d : nat) (n : union_query) (with_format : bool) : list line :=
-  (match first_select (fun q => is_some (sq_into_outfile q)) (u_selects n) with
-   | Some q => match sq_into_outfile q with
-               | Some f => [leaf (S d) (L_outfile f)]
-               | None => []
-               end
-   | None => []
-   end)
-  ++ when (u_settings_before_format n && pos (u_settings n)) [leaf (S d) L_Set]
-  ++ (if with_format then
-        match first_select (fun q => is_some (sq_format q)) (u_selects n) with
-        | Some q => opt_node (S d) (sq_format q)
-        | None => []
-        end
-      else [])
-  ++ (if u_settings_after_format n && pos (u_settings n) then [leaf (S d) L_Set]
-      else when (existsb (is_select_with legacy_settings) (u_selects n)) [leaf (S d) L_Set]).
+(* countSelectUnionChildren *)
+Definition count_select_union_children (n : union_query) : nat :=
+  count_select_union_children_tail n tail_none.
+
+(* the INTO OUTFILE loop (textually duplicated in the two union printers) *)
+Definition emit_outfile (d : nat) (n : union_query) : list line :=
+  match first_select (fun q => is_some (sq_into_outfile q)) (u_selects n) with
+  | Some q => match sq_into_outfile q with
+              | Some f => [leaf (S d) (L_outfile f)]
+              | None => []
+              end
+  | None => []
+  end.
+
+(* explainUnionTail(sb, n, indent(d), d, tail) *)
+Definition explain_union_tail (d : nat) (n : union_query) (t : union_tail) : list line :=
+  when (u_settings_before_format n && pos (tail_union_settings t n)) [leaf (S d) L_Set]
+  ++ (match first_select_i (tail_has_format t) 0 (u_selects n) with
+      | Some (i, q) => opt_node (S d) (tail_format t i q)
+      | None => []
+      end)
+  ++ (if u_settings_after_format n && pos (tail_union_settings t n) then [leaf (S d) L_Set]
+      else when (exists_select_i (tail_legacy_settings t) 0 (u_selects n)) [leaf (S d) L_Set]).
 
 (* `for i, sel := range groupedSelects { if i > 0 && len(inheritedWith) > 0 {..} else {..} }` *)
 Fixpoint emit_grouped (d : nat) (inherited_with : list rose) (first : bool) (l : list sel_item)
@@ -350,15 +411,24 @@ Fixpoint emit_grouped (d : nat) (inherited_with : list rose) (first : bool) (l :
       ++ emit_grouped d inherited_with false r
   end.
 
-(* explainSelectWithUnionQueryFormat(sb, n, indent(d), d, withFormat) *)
-Definition explain_select_with_union_query_format (d : nat) (n : union_query) (with_format : bool)
+(* explainSelectWithUnionQueryTail(sb, n, indent(d), d, tail) *)
+Definition explain_select_with_union_query_tail (d : nat) (n : union_query) (t : union_tail)
   : list line :=
-  hdr d L_SelectWithUnionQuery (count_select_union_children_format n with_format)
+  hdr d L_SelectWithUnionQuery (count_select_union_children_tail n t)
   :: hdr (S d) L_ExpressionList (List.length (u_grouped n))
   :: emit_grouped (S (S d))
        (match u_selects n with s :: _ => extract_with_clause s | [] => [] end)
        true (u_grouped n)
-  ++ emit_union_tail d n with_format.
+  ++ emit_outfile d n
+  ++ explain_union_tail d n t.
+
+(* explainSelectWithUnionQuery(sb, n, indent(d), d) *)
+Definition explain_select_with_union_query (d : nat) (n : union_query) : list line :=
+  explain_select_with_union_query_tail d n tail_none.
+
+(* explainAsSelectWithoutFormat(sb, stmt, d) for a SelectWithUnionQuery (CREATE ... AS SELECT) *)
+Definition explain_as_select_without_format (d : nat) (n : union_query) : list line :=
+  explain_select_with_union_query_tail d n tail_no_format.
 
 (* ExplainSelectWithInheritedWith(sb, stmt, inheritedWith, d): the recursion into nested unions /
    intersects is abstracted: such a member is an ItemOther whose o_tree is what is printed *)
@@ -369,13 +439,40 @@ Definition explain_select_with_inherited_with (d : nat) (inherited_with : list r
   | ItemOther o => node d (o_tree o)
   end.
 
-(* explainSelectWithUnionQueryWithInheritedWith(sb, n, inheritedWith, d) *)
+(* explainSelectWithUnionQueryWithInheritedWith(sb, n, inheritedWith, d, tail) *)
 Definition explain_select_with_union_query_with_inherited_with (d : nat) (n : union_query)
-           (inherited_with : list rose) : list line :=
-  hdr d L_SelectWithUnionQuery (count_select_union_children_format n true)
+           (inherited_with : list rose) (t : union_tail) : list line :=
+  hdr d L_SelectWithUnionQuery (count_select_union_children_tail n t)
   :: hdr (S d) L_ExpressionList (List.length (u_grouped n))
   :: flat_map (explain_select_with_inherited_with (S (S d)) inherited_with) (u_grouped n)
-  ++ emit_union_tail d n true.
+  ++ emit_outfile d n
+  ++ explain_union_tail d n t.
+
+(* ---- the tails the enclosing statements pass (statements.go) ---- *)
+
+(* explainInsertQuery: unionTail{noFormat: true}; with len(n.With) > 0 the inherited-WITH
+   printer, else the plain one *)
+Definition explain_insert_select (d : nat) (insert_with : list rose) (n : union_query) : list line :=
+  if nonempty insert_with
+  then explain_select_with_union_query_with_inherited_with d n insert_with tail_no_format
+  else explain_select_with_union_query_tail d n tail_no_format.
+
+(* explainExplainQuery: the tail computed from the union and its FIRST SelectQuery member
+   (`for _, sel := range swu.Selects { if sq, ok := ..; ok { ...; break } }`) *)
+Definition explain_query_tail (n : union_query) : union_tail :=
+  let has_settings_after_format := u_settings_after_format n && pos (u_settings n) in
+  match first_select_i (fun _ _ => true) 0 (u_selects n) with
+  | Some (i, sq) =>
+      mkTail false
+             (if is_some (sq_format sq) then Some i else None)
+             has_settings_after_format
+             (if sq_settings_after_format sq && pos (sq_settings sq) && negb has_settings_after_format
+              then Some i else None)
+  | None => mkTail false None has_settings_after_format None
+  end.
+
+Definition explain_explain_select (d : nat) (n : union_query) : list line :=
+  explain_select_with_union_query_tail d n (explain_query_tail n).
 
 (* ---------------------------------------------------------------------------------------- *)
 (** * SelectIntersectExceptQuery *)
